@@ -59,11 +59,12 @@ func (m *TN93Model) Distance(seq1 []uint8, seq2 []uint8, weights []float64) (flo
 	}
 
 	dist = 2.*(m.pi[0]*m.pi[2]+m.pi[1]*m.pi[3])*(y*b1+(1-y)*b2) + 2*pir*piy*b3
-	if dist > 0 {
+	// A saturated pair gives NaN (log or power of a negative number):
+	// it must stay undefined, not become a distance of 0
+	if dist > 0 || math.IsNaN(dist) {
 		return dist, nil
-	} else {
-		return 0, nil
 	}
+	return 0, nil
 }
 
 func (m *TN93Model) InitModel(al align.Alignment, weights []float64, gamma bool, alpha float64) (err error) {
